@@ -7,6 +7,7 @@ import QV.Drive.C14
 import QV.Drive.C05
 import QV.Drive.C18
 import QV.Drive.C16
+import QV.Drive.C17
 /-! `qvdriver`: one JSON request per input line, one JSON reply per output line. -/
 open Lean
 
@@ -20,7 +21,8 @@ def dispatch (j : Json) : Except String Json := do
     QV.Drive.C14.handle,
     QV.Drive.C05.handle,
     QV.Drive.C18.handle,
-    QV.Drive.C16.handle
+    QV.Drive.C16.handle,
+    QV.Drive.C17.handle
   ]
   for h in handlers do
     if let some r := h op j then return ← r
